@@ -1877,3 +1877,67 @@ package yqlib
 //@   at return: assert @one-lookup-per-listed-key {C01,C02} implies(result1 == nil && len(indices) > 0, calls(PushBackList) == len(indices))
 //@   loop 1:
 //@     invariant @kept-so-far {C01,C02} calls(PushBackList) == rangeidx() && 0 <= rangeidx() && rangeidx() <= len(indices)
+
+// encoder_sh.go: @sh writes exactly what encode made of the text (C17)
+//@ func (*shEncoder).Encode
+//@   props C17
+//@   nosafety
+//@   nopre
+//@   noframe
+//@   at encode: assert @the-scalars-own-text-is-encoded {C17} arg1 == node.Value
+//@   at writeString: assert @what-encode-made-is-written-as-it-is {C17} arg0 == writer && arg1 == resultOf(encode)
+
+// operator_compare.go: min / max look at the elements of one sequence at a time (C15)
+//@ func superlativeByComparison
+//@   props C15
+//@   nosafety
+//@   nopre
+//@   noframe
+//@   overlay
+//@   at splat: assert @the-elements-of-this-sequence-only {C15} len(arg0.MatchingNodes) == 1 && listAt(arg0.MatchingNodes, 0) == seq.Value
+
+// encoder_toml.go: what the TOML encoder cannot write is refused, and aliases are resolved before it is asked (C19)
+//@ func (*tomlEncoder).Encode
+//@   props C19
+//@   nosafety
+//@   nopre
+//@   noframe
+//@   requires node != nil
+//@   ensures @anything-but-a-scalar-is-refused {C19} implies(old(node.Kind) != ScalarNode, result != nil)
+
+//@ func (*tomlEncoder).CanHandleAliases
+//@   props C19
+//@   ensures @aliases-are-exploded-first {C19} !result
+
+// operator_reverse.go: the reversed sequence owns copies of the elements (C16)
+//@ func reverseOperator
+//@   props C16
+//@   nosafety
+//@   nopre
+//@   noframe
+//@   overlay
+//@   at PushBack: assert @a-container-that-owns-its-children {C16} arg1 == iface(reverseList) && ownsItsChildren(reverseList)
+
+// operator_path.go: setpath(p; v) evaluates p and v read-only (C02 frame)
+//@ func setPathOperator
+//@   props C02
+//@   nosafety
+//@   nopre
+//@   noframe
+//@   at GetMatchingNodes#1: assert @the-path-is-evaluated-read-only {C02} arg1.DontAutoCreate && arg2 == expressionNode.RHS.LHS
+//@   at GetMatchingNodes#2: assert @the-value-is-evaluated-read-only-on-the-node-itself {C02} arg1.DontAutoCreate && len(arg1.MatchingNodes) == 1 && nodeAt(arg1.MatchingNodes, 0) == candidate && arg2 == expressionNode.RHS.RHS
+
+// operator_traverse_path.go: reading a map follows a `<<` merge entry, and takes it for an ordinary entry only
+// when aliases are not to be followed or the entry itself ("<<") is asked for (C13)
+//@ func doTraverseMap
+//@   props C13
+//@   nosafety
+//@   nopre
+//@   noframe
+//@   overlay
+//@   at traverseMergeAnchor: assert @a-merge-entry-is-read-through {C13} arg0 == newMatches && arg1 == value && arg2 == wantedKey && arg3 == prefs && arg4 == splat
+//@   at Set: assert @only-then-is-a-merge-entry-an-ordinary-entry {C13} key.Tag != "!!merge" || prefs.DontFollowAlias || wantedKey == "<<"
+
+//@ func keyMatches
+//@   trusted
+//@   modifies \nothing
